@@ -226,7 +226,7 @@ func init() {
 	Register(&Check{
 		ID: "C08", Level: "fault_enumeration", Tech: "deterministic simulation: at-rest corruption of the simulated drive (single-byte alterations enumerated over header bytes, sampled over content) and structured forgeries, then rebuild + restore in a fresh instance",
 		Rule:      "tapes written by small generated histories under {minisign,pgp} x {none,age,pgp} x compression subset; alterations: every header/PAX byte at a stride (thorough: every byte) x masks {0x01,0x80,0xFF}, sampled content bytes; forgeries: embedded header edited with kept / removed / garbage / re-encoded / non-signature-packet signature, signatures swapped between records, record signed with a second key, unsigned plain tar member appended and spliced, records duplicated; oracle: every header the indexer accepts (onHeader after verification) is field-for-field one the writer signed, every restore fails or returns the content signed under that header; an evaluation = one altered tape; non-trivial = the alteration changed a header or content byte of a record; distinct by (config, alteration kind, record, offset)",
-		QuickRuns: 48, QuickSecs: 80, ThoroughRuns: 600, ThoroughSecs: 1700,
+		QuickRuns: 64, QuickSecs: 80, ThoroughRuns: 600, ThoroughSecs: 1700,
 		Assumptions: []string{"replay/reordering/dropping of validly signed records is not forbidden by the property: counted, not judged", "the attacker knows the encryption recipient (public key) but not the signing identity"},
 		Gen: func(r *rand.Rand, tier string, relax Relax) *Case {
 			c := &Case{P: map[string]int64{"enumerate": 1}, S: map[string]string{}}
